@@ -12,6 +12,9 @@ list of signed operands, a pure * chain a list, an AND/OR/XOR chain of one conne
 """
 from __future__ import annotations
 
+import decimal
+import math
+
 from mc.lexer import LexError, lex
 
 
@@ -188,6 +191,16 @@ class P:
                 n = self.eat()
                 parts.append("*" if n.kind == "OP" else n.value)
             return ("id", tuple(parts))
+        if t.kind == "OP" and t.text == "(" and self.isword("SELECT"):
+            # a parenthesised subquery is one opaque operand
+            depth = 1
+            while depth:
+                x = self.eat()
+                if x.kind == "OP" and x.text == "(":
+                    depth += 1
+                elif x.kind == "OP" and x.text == ")":
+                    depth -= 1
+            return ("subq",)
         if t.kind == "OP" and t.text == "(":
             e = self.expr()
             if self.isop(","):
@@ -255,6 +268,8 @@ def parse_expr(sql, dialect, values=None):
                     raise ParseError("more placeholders than values")
                 v = values[i]
                 i += 1
+                if isinstance(v, decimal.Decimal):
+                    v = float(v)
                 if isinstance(v, bool) or v is None or not isinstance(v, (int, float, str)):
                     out.append(t)
                 else:
@@ -279,7 +294,7 @@ def parse_expr(sql, dialect, values=None):
 def _signed(t):
     """normalised node -> (sign, positive core)"""
     k = t[0]
-    if k == "num" and isinstance(t[1], (int, float)) and not isinstance(t[1], bool) and t[1] < 0:
+    if k == "num" and isinstance(t[1], (int, float)) and not isinstance(t[1], bool) and (t[1] < 0 or (t[1] == 0 and math.copysign(1, t[1]) < 0)):
         return -1, ("num", -t[1])
     if k == "neg":
         s, c = _signed(t[1])
@@ -293,7 +308,7 @@ def _wrap(s, c):
 
 def norm(t):
     k = t[0]
-    if k in ("id", "num", "str", "null", "par", "bool", "word", "star", "kw"):
+    if k in ("id", "num", "str", "null", "par", "bool", "word", "star", "kw", "subq"):
         s, c = _signed(t)
         return _wrap(s, c)
     if k in ("sum", "prod", "div", "chain"):
